@@ -403,6 +403,16 @@ func codecRun(in *Sx) *Sx {
 	steps := decodeStream(v, b, 4)
 	runtime.ReadMemStats(&m1)
 	alloc := m1.TotalAlloc - m0.TotalAlloc
+	// TotalAlloc is process wide: the runtime's own goroutines can allocate meanwhile. Decoding is pure, so
+	// when the figure looks large measure again (up to twice) and keep the smallest.
+	for rep := 0; rep < 2 && alloc > uint64(64*len(b)+4096); rep++ {
+		runtime.ReadMemStats(&m0)
+		decodeStream(v, b, 4)
+		runtime.ReadMemStats(&m1)
+		if a := m1.TotalAlloc - m0.TotalAlloc; a < alloc {
+			alloc = a
+		}
+	}
 	outs := []*Sx{A("dec")}
 	cur := v
 	for _, s := range steps {
